@@ -1050,6 +1050,16 @@ def register_frontend(R, H):
     variants["sholl,steps=2-in-a-name-and-arguments-pair"] = lambda S: dict(self=sholl_feats(S), feature=("sholl", PDict_(dict(steps=2))))
     variants["sholl,pair-overridden-by-keyword-argument"] = lambda S: dict(self=sholl_feats(S), feature=("sholl", PDict_(dict(steps=3))), kwargs=PDict_(dict(steps=2)))
 
+    # the module objects (node_features, branch_features, ...) are cached_properties of Features: a WARM module cache is used as it is.
+    # The cached module holds a reference to the tree it was built for, so edits of that tree are seen; only re-binding
+    # `features.tree` to another tree leaves the cache pointing at the old one -- the variant below states exactly that.
+    def warm_module(S):
+        from swcgeom.analysis.features import NodeFeatures
+
+        return dict(self=S.obj(Features, tree=sym_tree(S, "t"), node_features=S.obj(NodeFeatures, tree=sym_tree(S, "u"))), feature="node_count")
+
+    variants["node_count,warm-module-cache-built-for-another-tree"] = warm_module
+
     def view(o, cls=None, sub=False):
         """the object a feature-class clause expects, for the tree held by the Features object"""
         import types
@@ -1069,7 +1079,8 @@ def register_frontend(R, H):
             return (isinstance(res, NArr) and res.shape == (2,) and res.kind == "real"
                     and z3.And(*[is_count_of(E, x, sh.fields["rs"].nz(), rs_pred(sh, r)) for x, r in zip(res.items, radii)]))
         if f == "node_count":
-            return one_number(E, v, z3.ToReal(nof(t)))
+            cached = o["self"].fields.get("node_features")  # warm module cache: the tree the cached module was built for
+            return one_number(E, v, z3.ToReal(nof(cached.fields["tree"] if cached is not None else t)))
         if f == "length":
             return one_number(E, v, tree_len(E, t))
         res = v["result"]
@@ -1363,6 +1374,15 @@ def register_topology_features(R, H):
 
         return f
 
+    def sums_to_tree_length(E, v, o):
+        """the property's first sentence: the tree length (sum of parent-child distances) equals the summed length of its branches"""
+        if not is_cold(o, "_branches"):
+            return True
+        t, res = o["self"].fields["tree"], v["result"]
+        g, pids = Geo(E, t), pids_of(t)
+        total = sum((g.d(p, i) for i, p in enumerate(pids) if p != -1), z3.RealVal(0))
+        return isinstance(res, NArr) and sum((to_z3(x, "real") for x in res.items), z3.RealVal(0)) == total
+
     def count_post(want, field):
         def f(E, v, o):
             if is_cold(o, field):
@@ -1391,7 +1411,8 @@ def register_topology_features(R, H):
                   ("warm-cache-is-used-as-it-is-and-left-unchanged", kept(field))]
         R.add(f"{FEAT}:{nm}.get_length", prop="C10", variants=variants_of(cls, field, ccls), options=dict(inline_calls=INLINE),
               ensures=[(f"cold-cache:multiset-of-the-lengths-of-the-textbook-{key}", multiset("length", want, field)),
-                       ("value-k-is-the-sum-of-consecutive-node-distances-of-listed-chain-k", per_chain(field, ccls, "length"))] + common,
+                       ("value-k-is-the-sum-of-consecutive-node-distances-of-listed-chain-k", per_chain(field, ccls, "length"))] + common
+              + ([("cold-cache:branch-lengths-sum-to-the-tree-length-the-sum-of-parent-child-distances", sums_to_tree_length)] if cls is BranchFeatures else []),
               notes=SIZE_NOTE)
         R.add(f"{FEAT}:{nm}.get_tortuosity", prop="C10", variants=variants_of(cls, field, ccls), options=dict(inline_calls=INLINE),
               ensures=[(f"cold-cache:multiset-of-the-tortuosities-of-the-textbook-{key}", multiset("tortuosity", want, field)),
